@@ -3,6 +3,7 @@ package rules
 import (
 	"go/constant"
 	"go/token"
+	"go/types"
 	"sort"
 	"strings"
 
@@ -28,7 +29,7 @@ func C16(r *core.Run) {
 		"(R16.4) outside Server(), the host middlewares and the Location element of CompleteMultipartUpload nothing reads the addressing options, Request.Host or the middleware's mark — every handler below the router is addressing-mode independent — and nothing below routeBase re-reads the request path: the (bucket, key) decision is taken once; " +
 		"(R16.5) routeBase derives bucket and key from URL.Path with the slashes stripped on both sides before the single split; " +
 		"(R16.6) the request is marked as host-addressed exactly on the paths that rewrite it, and the form of the Location element follows that mark rather than an option Server() may have overridden; " +
-		"(R16.7) the base middleware treats a host as <label>.<base> only under a suffix test against a configured base and a test that the label contains no further dot, and forwards the untouched request otherwise; (R09.6) each middleware forwards exactly once with the incoming writer and request."
+		"(R16.7) the base middleware treats a host as <label>.<base> only under a suffix test against a configured base and a test that the label contains no further dot, and forwards the untouched request otherwise; (R09.6) each middleware forwards exactly once with the incoming writer and request. (R16.8) each addressing option writes only its own field, Server() installs the base middleware on the base list alone, and the Host header is compared with the bases untransformed."
 	r.NotDecided = "equality of the two complete responses; the contents of the strings (which characters a label or key contains, ports in Host values, bases that are suffixes of one another, empty labels); that the rewritten path, once trimmed and split by routeBase, yields the same key as the path-style form for every key (keys beginning with '/' are a documented ambiguity of the path form); CORS and time-skew middlewares' interplay"
 	r.TrustedBase = append(r.TrustedBase, "net/http delivers Host and URL.Path as received", "strings.Trim/SplitN/HasSuffix semantics")
 	rule161(r)
@@ -39,6 +40,7 @@ func C16(r *core.Run) {
 	rule165(r)
 	rule166(r, mws)
 	rule167(r, mws)
+	rule168(r)
 	rule096(r)
 }
 
@@ -997,4 +999,118 @@ func isMarked(r *core.Run, v ssa.Value, mark *ssa.Function, depth int) bool {
 		return isMarked(r, c.Call.Args[0], mark, depth+1)
 	}
 	return false
+}
+
+// rule168 — each addressing option owns one field; the base list alone decides
+// the base middleware; the Host header is matched as it came.
+func rule168(r *core.Run) {
+	r.Rule("R16.8", "WithHostBucket writes only GoFakeS3.hostBucket and WithHostBucketBase only hostBucketBases (the options do not switch each other on or off, whatever the order they are given in); in Server() the base middleware is installed whenever the base list is non-empty — no test of hostBucket guards it — and the plain middleware when hostBucket is set and the list is empty; in the base middleware the string compared with the configured bases (HasSuffix) is Request.Host itself, not a port-stripped or otherwise transformed copy (bases are matched as configured: transforming one side only makes a base with a port unmatched and a base without one capture host:port)")
+	// option → field ownership
+	owns := map[string]string{"gofakes3.WithHostBucket": "gofakes3.GoFakeS3.hostBucket", "gofakes3.WithHostBucketBase": "gofakes3.GoFakeS3.hostBucketBases"}
+	n := 0
+	for opt, fld := range owns {
+		of := mustFunc(r, opt)
+		if of == nil {
+			continue
+		}
+		for _, f := range core.Closures(of) {
+			ff := f
+			core.Instrs(ff, func(in ssa.Instruction) {
+				st, ok := in.(*ssa.Store)
+				if !ok {
+					return
+				}
+				fa, ok := st.Addr.(*ssa.FieldAddr)
+				if !ok || !strings.HasPrefix(r.P.FieldName(fa), "gofakes3.GoFakeS3.") {
+					return
+				}
+				n++
+				r.Check(r.P.FieldName(fa) == fld, "R16.8", key(opt, "writes only its own field", r.P.FieldName(fa)), pos(r, in), "option sets "+fld,
+					"the option "+opt+" also writes "+r.P.FieldName(fa)+": the two addressing options override each other depending on the order and values they are given with")
+			})
+		}
+	}
+	if n < 2 {
+		r.Unresolved("R16.8: %d option stores found (expected 2)", n)
+	}
+	// Server(): base middleware guarded by the base list only
+	if srv := mustFunc(r, "gofakes3.(*GoFakeS3).Server"); srv != nil {
+		core.Instrs(srv, func(in ssa.Instruction) {
+			c, ok := in.(*ssa.Call)
+			if !ok {
+				return
+			}
+			switch r.P.CalleeName(c) {
+			case "gofakes3.(*GoFakeS3).hostBucketBaseMiddleware":
+				bad := ""
+				for _, ec := range expandedConds(c) {
+					if ec.merged {
+						continue
+					}
+					gs := r.P.SliceOf(ec.cond, core.SliceOpts{Depth: -1})
+					if gs.Has("field:gofakes3.GoFakeS3.hostBucket") {
+						bad = "hostBucket"
+					}
+				}
+				r.Check(bad == "", "R16.8", key(fname(r, srv), "base middleware depends on the base list alone"), pos(r, c), "installed whenever bases are configured",
+					"the base middleware is installed only if hostBucket is also set: WithHostBucketBase(x) combined with WithHostBucket(false) loses the bases")
+			case "gofakes3.(*GoFakeS3).hostBucketMiddleware":
+				okHB, okEmpty := false, false
+				for _, ec := range expandedConds(c) {
+					gs := r.P.SliceOf(ec.cond, core.SliceOpts{Depth: -1})
+					if gs.Has("field:gofakes3.GoFakeS3.hostBucket") && ec.truth != core.CondOf(ec.cond).Neg {
+						okHB = true
+					}
+					if gs.Has("field:gofakes3.GoFakeS3.hostBucketBases") {
+						okEmpty = true
+					}
+				}
+				r.Check(okHB && okEmpty, "R16.8", key(fname(r, srv), "plain middleware when hostBucket is set and no base is configured"), pos(r, c), "hostBucket && no bases",
+					"the plain host middleware is not installed exactly when hostBucket is set and the base list is empty")
+			}
+		})
+	}
+	// the host compared with the bases is the header itself
+	bm := mustFunc(r, "gofakes3.(*GoFakeS3).hostBucketBaseMiddleware")
+	if bm == nil {
+		return
+	}
+	m := 0
+	for _, f := range core.Closures(bm) {
+		ff := f
+		core.Instrs(ff, func(in ssa.Instruction) {
+			c, ok := in.(*ssa.Call)
+			if !ok {
+				return
+			}
+			cn := r.P.CalleeName(c)
+			if strings.Contains(cn, "Logger") || strings.HasPrefix(cn, "log.") || strings.HasPrefix(cn, "fmt.") {
+				return
+			}
+			for _, a := range c.Call.Args {
+				hs := r.P.SliceOf(a, core.SliceOpts{Depth: -1})
+				if !hs.Has("field:net/http.Request.Host") {
+					continue
+				}
+				// the request itself handed on (ServeHTTP, withHostBucket) is not the host string
+				if !types.Identical(a.Type().Underlying(), types.Typ[types.String]) {
+					continue
+				}
+				m++
+				bad := ""
+				for _, l := range hs.LeafList("call:") {
+					switch {
+					case l == "call:strings.ToLower":
+					case strings.HasPrefix(l, "call:net."), strings.HasPrefix(l, "call:strings."), strings.HasPrefix(l, "call:net/url."):
+						bad = strings.TrimPrefix(l, "call:")
+					}
+				}
+				r.Check(bad == "", "R16.8", key(fname(r, bm), "Host matched as it came", sprintf("#%d", m)), pos(r, c), "the Host header itself is matched against the bases",
+					"the Host header is transformed ("+bad+") before it is compared with the configured bases, which are not: a base configured with a port no longer matches, and one without captures host:port requests meant for path-style")
+			}
+		})
+	}
+	if m < 1 {
+		r.Unresolved("R16.8: the base middleware hands Request.Host to no call")
+	}
 }
